@@ -76,6 +76,20 @@ Theorem C08_under_condition_not_base : forall sch frags fuel ss root unp fields 
 Proof. exact resolve_under_no_mixin. Qed.
 Print Assumptions C08_under_condition_not_base.
 
+(* the dependency relation of the fragments module is taken on the names WRITTEN in the queries file (the keys
+   of fragments_definitions), not on the PascalCased class names: everything resolve returns as a base, and every
+   edge of the base graph, is the written name of a defined fragment (whatever its case style) *)
+Theorem C08_deps_on_written_names : forall sch frags fuel under ss root unp fields mix unp',
+  resolve fuel sch frags under ss root unp = Some (fields, mix, unp') ->
+  forall fn, In fn mix -> exists fd, find_frag fn frags = Some fd.
+Proof. exact resolve_mix_written. Qed.
+Print Assumptions C08_deps_on_written_names.
+
+Theorem C08_base_graph_on_written_names : forall fuel sch frags g, top_graph fuel sch frags = Some g ->
+  forall n d, In d (succs g n) -> exists fd, find_frag d frags = Some fd.
+Proof. exact top_graph_written. Qed.
+Print Assumptions C08_base_graph_on_written_names.
+
 (* the listed fragment bases never contain a fragment that another fragment of the resolved set - in
    particular another listed base, earlier or later - inherits: `class X(A, B)` with B a subclass of A
    (the pattern Python's C3 linearisation rejects, former finding C08-MRO) is never emitted.
@@ -200,6 +214,29 @@ Example C08_conditional_example :
                 [[("Q", ["BaseModel"], []); ("QDog", ["BaseModel"], [])];
                  [("R", ["BaseModel"], []); ("RDog", ["B"], ["B"])]] /\
               pk_exclude p = ["A"] /\ option_map fm_order (pk_module p) = Some ["A"; "B"]
+  | None => False
+  end.
+Proof. vm_compute. repeat split. Qed.
+
+(* fragment names in other case styles: the table is keyed by the written names, class names are PascalCased;
+   `itemDetails` (sorts before `itemName`) is still emitted after the fragment it inherits from, and
+   snake_case / UPPER names keep their own keys *)
+Definition frags_case : list fragdef :=
+  [ {| fr_name := "itemDetails"; fr_on := "Dog"; fr_mixins := []; fr_sel := [SField None "b" [] []; SSpread "itemName" false] |};
+    {| fr_name := "itemName"; fr_on := "Dog"; fr_mixins := []; fr_sel := [SField None "a" [] []] |};
+    {| fr_name := "dog_extra_1"; fr_on := "Dog"; fr_mixins := []; fr_sel := [SSpread "itemDetails" false] |};
+    {| fr_name := "DOG_ALL"; fr_on := "Dog"; fr_mixins := []; fr_sel := [SSpread "dog_extra_1" false; SSpread "itemName" false] |} ].
+Definition ops_case : list opdef :=
+  [ {| o_name := "Q"; o_root := "Query"; o_mixins := []; o_sel := [SField None "dog" [] [SSpread "DOG_ALL" false]] |} ].
+
+Example C08_case_styles_example :
+  match generate_package 200 sch_mro frags_case ops_case true id_oracle with
+  | Some p => pk_frag_table p = [("itemDetails", ["itemName"]); ("itemName", []); ("dog_extra_1", ["itemDetails"]);
+                                 ("DOG_ALL", ["dog_extra_1"; "itemName"])] /\
+              option_map fm_order (pk_module p) = Some ["itemName"; "itemDetails"; "dog_extra_1"; "DOG_ALL"] /\
+              option_map (fun m => map (fun nc => map (fun c => (c_name c, c_bases c)) (snd nc)) (fm_classes m)) (pk_module p) =
+                Some [[("ItemName", ["BaseModel"])]; [("ItemDetails", ["ItemName"])]; [("DogExtra1", ["ItemDetails"])];
+                      [("DOGALL", ["DogExtra1"])]]
   | None => False
   end.
 Proof. vm_compute. repeat split. Qed.
